@@ -6,6 +6,16 @@ ids = [json.loads(l)["id"] for l in open(os.path.join(HERE, "properties.jsonl"))
 
 # id -> (category, technique, level text, level note, design ref)
 CLAIMED = {
+ "C05": ("exploration",
+         "model-based property testing of delivery schedules (permutation / duplication / gaps / reload) against an exactly-once model, plus a recording crypto provider checking global (key, nonce) uniqueness",
+         "Generated multi-sender streams on both ratchets with gaps up to and beyond the 1024 window and per-receiver schedules; every delivery's outcome is predicted by an explicit consumed-generation model; all AEAD (key, nonce) pairs of all members are pairwise distinct and application/handshake keys are disjoint; clones of a sender never share a nonce.",
+         "Reloads always follow a write (state rollback is not modelled). One epoch per case.",
+         "DESIGN.md §4 C05"),
+ "C19": ("exploration",
+         "model-based property testing: generated write patterns, epoch advances and sender-leaf changes against a mirror model of the retained epoch set",
+         "Late application messages are delivered after generated numbers of epochs, write patterns and sender-leaf changes (removed, reused, HPKE or identity re-keyed), for retention 1-5 and both storage providers; a mirror model predicts exactly which decrypt; accepted ones must carry the original sender; stored epochs must be exactly the modelled set.",
+         "The receiver is a Welcome joiner present in all modelled epochs.",
+         "DESIGN.md §4 C19"),
  "C06": ("fault_enumeration",
          "stateful property-based testing with save / drop / load at generated crash points (API-call granularity), twins loaded from storage copies, and a tee storage provider comparing the two shipped providers answer by answer",
          "Histories over in-memory, SQLite and tee storage with retention 1-5: the state loaded after a write equals the state at the write (canonical equality incl. pending commit, proposals, pending updates), also right after building a commit; a fresh instance loaded at any later point equals the last written state; a twin loaded from a storage copy stays equal to the member after every delivery; both storage providers return identical answers and histories.",
